@@ -458,6 +458,53 @@ def codespeed_part(chk):
     chk.count("codespeed_sessions", n)
 
 
+def codespeed_same_name_part(chk):
+    """runs that differ in the variable value only share their Codespeed name: still one result per run"""
+    rng = chk.rng
+    n = 8 if chk.tier == "quick" else 80
+    d = session.scratch_dir()
+    srv = CsServer()
+    try:
+        for i in range(n):
+            del srv.got[:]
+            data_file = os.path.join(d, "v%d.data" % i)
+            vals = rng.sample([1, 2, 3, 5, 8], rng.randint(2, 4))
+            final = i % 2 == 1
+            raw = {"executors": {"E": {"path": "/x", "executable": "exe"}},
+                   "benchmark_suites": {"S": {"gauge_adapter": "RebenchLog", "command": "%(benchmark)s-%(variable)s %(invocation)s",
+                                              "invocations": rng.randint(1, 2), "retries_after_failure": 0,
+                                              "variable_values": vals, "benchmarks": ["B"]}},
+                   "experiments": {"X": {"executions": [{"E": {"suites": ["S"]}}]}},
+                   "reporting": {"codespeed": {"url": "http://127.0.0.1:%d/" % srv.port}}}
+            failing = {v for v in vals if rng.random() < 0.25}
+
+            def script(bench, k, inv):
+                v = int(bench.split("-")[1])
+                if v in failing:
+                    return 1, "boom"
+                return 0, "B: iterations=1 runtime: %dus\n" % (1000 * v + 100 * inv)
+            argv = ["--commit-id=abc", "--environment=env", "--project=p"] + (["-I"] if final else [])
+            ses = session.run_session(raw, script, data_file, argv=argv)
+            case = dict(config=raw, final_mode=final, failing_values=sorted(failing))
+            if isinstance(ses.result, str):
+                chk.violation("C18 session with Codespeed reporting ends without an exception", case, "no exception", ses.result + ": " + repr(ses.exc))
+                continue
+            per = {}
+            for c in session.read_data_file(data_file)["rows"]:
+                if c[4] == "total":
+                    per.setdefault(int(c[11]), []).append(float(c[2]))
+            want = sorted(round(sum(per[v]) / len(per[v]), 6) if v in per and v not in failing else -1 for v in vals)
+            results = [r for req in srv.got for r in req]
+            got = sorted(round(r["result_value"], 6) for r in results)
+            if got != want:
+                chk.violation("C18 Codespeed receives one result per run, also for runs that differ in the variable value only", case, want, got)
+            chk.case(("codespeed-same-name", i))
+    finally:
+        srv.close()
+        shutil.rmtree(d, ignore_errors=True)
+    chk.count("codespeed_sessions_runs_sharing_a_name", n)
+
+
 def run(chk):
     chk.prove(models=["Model/Report"])
     exprs, obs = table_part(chk)
@@ -483,6 +530,7 @@ def run(chk):
         chk.count("disagreements", ndis)
     sessions_part(chk)
     codespeed_part(chk)
+    codespeed_same_name_part(chk)
     chk.coverage["rule"] = ("run sets of size 1-12 (sizes evened out) compiled from configurations with 1-2 executors, 1-2 suites, "
                             "1-3 benchmarks, uniform or differing extra args, cores, input sizes (incl. integers), variable values, "
                             "tags; 0-5 samples per run or the same number for all; distinct = distinct (configuration, samples)")
